@@ -100,10 +100,10 @@ def main():
             meta["checks"] = {}
             sv = os.path.join(scratch, "verif")
             os.makedirs(os.path.join(sv, "replay"))
-            for f in ("known_findings.json", "prop_notes.json", "properties.jsonl"):
+            for f in ("known_findings.json", "prop_notes.json", "properties.jsonl", "bounded_checks.json"):
                 if os.path.exists(os.path.join(VERIF, f)):
                     shutil.copy(os.path.join(VERIF, f), sv)
-            for d in ("witness", "templates"):
+            for d in ("witness", "templates", "bounded"):
                 if os.path.isdir(os.path.join(VERIF, "replay", d)):
                     shutil.copytree(os.path.join(VERIF, "replay", d), os.path.join(sv, "replay", d))
             for c in checks:
